@@ -30,7 +30,8 @@ type decision struct {
 	choice   bool
 	alt      bool   // other side still to explore
 	altModel *Model // model for pc ∧ other side
-	kind     byte   // 'b' branch, 'a' assert/assume (no alternative)
+	kind     byte   // 'b' branch, 'a' assert/assume (no alternative), 'c' concretize (val)
+	val      uint64
 }
 
 // Violation is a failed assertion with the model that falsifies it.
@@ -116,7 +117,8 @@ type Exec struct {
 	allocMax  int64
 	allocs    []int64
 	pathNotes []string
-	nsecMs        map[int]*Term
+	wallMs        map[int]*Term
+	manualClock   *Term
 	timerObjs     map[Ptr]*timerObj
 	opaqueN       int
 	fmtSymbolic   int
@@ -255,6 +257,9 @@ func (x *Exec) Branch(c *Term) bool {
 	ts := x.ts
 	if x.pos < len(x.dec) {
 		d := x.dec[x.pos]
+		if d.kind != 'b' {
+			panic(pathEnd{kind: "internal", msg: "replay divergence in Branch" + x.whereAmI()})
+		}
 		x.pos++
 		if d.choice {
 			x.pc = append(x.pc, c)
@@ -426,24 +431,64 @@ func (x *Exec) violation(tag string, m *Model) {
 }
 
 // Concretize forks the path over the feasible values of t and returns this path's value.
+// The candidate value is recorded in the decision so that re-execution is deterministic.
 func (x *Exec) Concretize(t *Term, what string) int64 {
+	ts := x.ts
 	for {
 		if t.IsConst() {
 			return t.Int()
 		}
+		if x.pos < len(x.dec) {
+			d := x.dec[x.pos]
+			if d.kind != 'c' {
+				panic(pathEnd{kind: "internal", msg: "replay divergence in Concretize (" + what + ")" + x.whereAmI()})
+			}
+			x.pos++
+			k := ts.BV(d.val, t.W)
+			cond := ts.Eq(t, k)
+			if d.choice {
+				x.pc = append(x.pc, cond)
+			} else {
+				x.pc = append(x.pc, ts.Not(cond))
+			}
+			if x.pos == len(x.dec) && d.altModel != nil {
+				x.setModel(d.altModel)
+			}
+			if d.choice {
+				return k.Int()
+			}
+			continue
+		}
+		if len(x.dec) >= x.cfg.MaxDecisions {
+			panic(pathEnd{kind: "unwind", msg: fmt.Sprintf("decision bound %d reached (concretize %s)", x.cfg.MaxDecisions, what) + x.whereAmI()})
+		}
 		v, ok := x.eval(t)
 		if !ok {
-			r, m := x.check(x.ts.T)
+			r, m := x.check(ts.T)
 			if r != Sat {
 				panic(pathEnd{kind: "infeasible", msg: "concretize"})
 			}
 			x.setModel(m)
 			v, _ = x.eval(t)
 		}
-		k := x.ts.BV(v, t.W)
-		if x.Branch(x.ts.Eq(t, k)) {
-			return k.Int()
+		x.Decisions++
+		k := ts.BV(v, t.W)
+		cond := ts.Eq(t, k)
+		d := decision{choice: true, kind: 'c', val: v}
+		if !cond.IsTrue() {
+			r, m := x.check(ts.Not(cond))
+			switch r {
+			case Sat:
+				d.alt, d.altModel = true, m
+			case Unknown:
+				x.note("feasibility unknown in concretize " + what)
+				x.unknownBranch = true
+			}
 		}
+		x.dec = append(x.dec, d)
+		x.pos++
+		x.pc = append(x.pc, cond)
+		return k.Int()
 	}
 }
 
@@ -847,7 +892,8 @@ func (x *Exec) resetPath() {
 	x.allocMax = 0
 	x.pathNotes = nil
 	x.aborting = false
-	x.nsecMs = map[int]*Term{}
+	x.wallMs = map[int]*Term{}
+	x.manualClock = nil
 	x.timerObjs = map[Ptr]*timerObj{}
 	x.opaqueN = 0
 }
@@ -942,7 +988,11 @@ func (x *Exec) Explore(entry *ssa.Function) *Report {
 			break
 		}
 		d := x.dec[i]
-		x.dec = append(x.dec[:i:i], decision{choice: !d.choice, altModel: d.altModel, kind: 'b'})
+		k := d.kind
+		if k != 'c' {
+			k = 'b'
+		}
+		x.dec = append(x.dec[:i:i], decision{choice: !d.choice, altModel: d.altModel, kind: k, val: d.val})
 	}
 	return &Report{Entry: entry.String(), Paths: x.Paths, PathKinds: x.PathKinds, Violations: x.Violations,
 		Reached: x.Reached, Inconcl: x.Inconcl, Decisions: x.Decisions, Seconds: time.Since(t0).Seconds()}
